@@ -132,7 +132,7 @@ def _reachable(root):
     seen = {}
 
     def rec(x):
-        if isinstance(x, (list, tuple)):
+        if isinstance(x, (list, tuple, set)):
             for e in x:
                 rec(e)
             return
@@ -152,7 +152,7 @@ def _moneys(root):
 
     def rec(x):
         import dataclasses
-        if isinstance(x, (list, tuple)):
+        if isinstance(x, (list, tuple, set)):
             for e in x:
                 yield from rec(e)
             return
